@@ -3759,7 +3759,10 @@ fn gen_op<T: Subject>(rng: &mut Rng, s: &Session<T>, malformed: bool) -> Option<
                     let n = if malformed && len > 0 && rng.chance(1, 2) {
                         *rng.pick(&[usize::MAX, usize::MAX / 2 + 1, 1 << 63, usize::MAX - 1])
                     } else {
-                        *rng.pick(&[0, 1, 1, 2, 3, 5, 24])
+                        // counts with a non-trivial binary shape (6, 7, 10, 11: a doubling copy has a tail longer
+                        // than one piece) and the counts landing on either side of the inline capacity for THIS length
+                        let edge = if len > 0 { 23 / len } else { 4 };
+                        *rng.pick(&[0, 1, 1, 2, 3, 5, 24, 6, 7, 10, 11, edge, edge + 1, 13, 23])
                     };
                     Op::Repeat { h, d, n }
                 }
